@@ -3,10 +3,30 @@ from props import graphcommon as gc
 LEVEL = 'proof'
 PROP = 'C19'
 """C19 — each subgraph of a multi-signature model is transformed as if it stood alone (frame clauses)."""
+def multisub_standin(rep):
+    """bounded stand-in: subgraph i of quantize(two-subgraph model) == subgraph 0 of quantize(model made of subgraph i), by tensor name"""
+    from bounded import multisub as ms
+    structs, cs = ms.cases(); fails = 0; first = None
+    for c in cs:
+        f = [x for x in ms.run_case(c, structs) if x.startswith('C19') or x.startswith('RAISE-multi')]
+        if f: fails += 1; first = first or (c, f)
+    rep.add_bounded('Quantizer.quantize on two-subgraph / two-signature models vs the stand-alone subgraphs (operators, wiring, dtypes, parameters, constant bytes; by tensor name)',
+                    '3 op structures {FC-FC, FC-TANH, TANH-FC-ADD} squared x 3 tensor-numbering pairs (activations first / weights first / interleaved) x {weight-only, dynamic-range, static-range 8 bit}; statistics per signature, merged', len(cs), fails)
+    if first:
+        ob = core.Ob('C19/bounded.multisub/subgraph-equals-stand-alone-result', None, 'bounded-native', core.REFUTED, 0.0, detail=str(first[1]), clause='subgraph i of the multi-subgraph result equals the result of quantizing subgraph i alone')
+        ob.replay = dict(confirmed=True, inputs=dict(multisub_case=first[0]), violated=first[1]); rep.add(ob)
+
 def run(rep):
-    gc.small_carriers(rep, PROP); gc.insert_obligations(rep, PROP); gc.performer_obligations(rep, PROP); gc.names_obligations(rep, PROP)
+    gc.small_carriers(rep, PROP); gc.insert_obligations(rep, PROP); gc.performer_obligations(rep, PROP); gc.names_obligations(rep, PROP); gc.signature_obligations(rep, PROP)
+    multisub_standin(rep)
     gc.canaries(rep); gc.performer_canaries(rep)
     rep.assume('subgraph object graphs are disjoint (no operator/tensor/list object shared between two subgraphs): true of models parsed by the flatbuffer object API')
     rep.assume('plan generation (params_generator loops keyed by tensor name; uniqueness check) and shared constants (C15) are not re-proved here')
     rep.trust('flatbuffer object-API classes are plain attribute bags')
-from props.C01 import replay
+from props.C01 import replay as _replay01
+def replay(payload):
+    inp = payload.get('inputs', {})
+    if 'multisub_case' in inp:
+        from bounded import multisub as ms
+        f = ms.run_case(inp['multisub_case']); print(f); return 1 if f else 0
+    return _replay01(payload)
